@@ -645,6 +645,10 @@ func miceInst(c *core.Ctx, label string) *inst {
 	}
 	rs := c.PickInt(label+".rs", 1, 3, 16, 100, 4096)
 	payload := c.Bytes(label+".payload", 0, 400) // shared, read-only
+	if c.Chance(label+".large", 1, 6) {
+		payload = c.BytesN(label+".payload", c.PickInt(label+".largeLen", 65535, 65536, 70000, 100000, 140000))
+		rs = c.PickInt(label+".largeRS", 4096, 16384, 100)
+	}
 	in := &inst{name: label + ":mice.Encode", writer: true}
 	in.run = func(w io.Writer) error {
 		_, err := enc.Encode(w, payload, rs)
